@@ -80,6 +80,12 @@ def _convert_to_list(column) -> list | None:
     return column
 
 
+def _labels_to_list(columns) -> list:
+    # A column selection is a list of labels or a single label, which is a tuple
+    # for MultiIndex columns (and must not be split like a tuple of user arguments)
+    return columns if isinstance(columns, list) else [columns]
+
+
 def is_scalar(x):
     # np.isscalar does not work for some pandas scalars, for example pd.NA
     if isinstance(x, Sequence) and not isinstance(x, str):
